@@ -198,6 +198,8 @@ PerMsg(c, o, m, L, ev) ==
         THEN {} ELSE {"C06_OwnContext"})
   \cup (IF ev.e = "save_b" => ev.x = TidOf(c, m) THEN {} ELSE {"C06_ResultBinding"})
   \cup (IF ev.e = "start" /\ ev.s # "argok" THEN {"C06_OwnArguments"} ELSE {})
+  (* a processing finalises the dependencies it opened itself - never one more (those would be another execution's) *)
+  \cup (IF ev.e = "dep_close" /\ CntX(L, "dep_close", ev.x) > CntX(L, "dep_open", ev.x) THEN {"C06_OwnTeardown"} ELSE {})
   (* ---------------- C07 ---------------- *)
   \cup (IF ev.e = "save_b" THEN
           LET q == ev
